@@ -93,15 +93,41 @@ class HandlerTables(object):
         if WALKER not in self.repo.classes:
             raise AnalysisError("anchor %s vanished" % WALKER)
         self._ns = {}
+        self._sns = {}
         self._tab = {}
+        self.source = {}         # class -> how its namespace was obtained
+        self.deviations = []     # classes whose interpreted namespace differs from the static model
 
     def walkers(self):
         return [q for q in self.repo.subclasses(WALKER)]
 
     def class_ns(self, qual):
-        """walk_* attributes contributed by the class itself: name -> Handler."""
+        """walk_* attributes contributed by the class itself: name -> Handler.  Obtained by interpreting the metaclass and
+        the decorator of pysmt/walkers/generic.py on the class body (metatab.py); the static model below is the fall-back."""
         if qual in self._ns:
             return self._ns[qual]
+        static = self._static_ns(qual)
+        ns = static
+        try:
+            from . import metatab
+            got = metatab.class_namespace(self.repo, self.ops, qual)
+            ns = {}
+            for name, (fd, how) in got.items():
+                via = static[name].via if name in static and static[name].func is fd else how
+                ns[name] = Handler(qual, fd.name, fd, via)
+            self.source[qual] = "interpreted"
+            if dict((k, h.func) for k, h in ns.items()) != dict((k, h.func) for k, h in static.items() if h.func is not None):
+                self.deviations.append(qual)
+        except AnalysisError:
+            raise
+        except Exception as ex:            # noqa - any failure of the interpretation falls back to the model
+            self.source[qual] = "static model (%s: %s)" % (type(ex).__name__, str(ex)[:120])
+        self._ns[qual] = ns
+        return ns
+
+    def _static_ns(self, qual):
+        if qual in self._sns:
+            return self._sns[qual]
         ci = self.repo.cls(qual)
         ns = {}
         pending = []
@@ -137,7 +163,7 @@ class HandlerTables(object):
                     for o in nts:
                         if o in self.ops.op_str:
                             ns[self.ops.walk_name(o)] = Handler(qual, v.name, v, "handles")
-        self._ns[qual] = ns
+        self._sns[qual] = ns
         return ns
 
     def table(self, qual):
